@@ -107,6 +107,9 @@ func (n *GeneratorInterceptor) BindRemoteStream(
 	receiveLog, _ := newReceiveLog(n.size)
 	n.receiveLogsMu.Lock()
 	n.receiveLogs[info.SSRC] = receiveLog
+	// a stream that is bound again (without an unbind in between) starts with a new receive log:
+	// the NACK counts of the numbers of the previous binding must not carry over to it
+	delete(n.nackCountLogs, info.SSRC)
 	n.receiveLogsMu.Unlock()
 
 	return interceptor.RTPReaderFunc(func(b []byte, a interceptor.Attributes) (int, interceptor.Attributes, error) {
